@@ -51,6 +51,11 @@ func drawC04(r *rng.R, stats map[string]int, mu *sync.Mutex) *c04Case {
 			cs.G = specgen.RandomGrammar(r, o)
 			cs.Origin = "random-small"
 		case 7:
+			if r.Chance(1, 3) {
+				cs.G = specgen.ErrorNameClashGrammar(r)
+				cs.Origin = "rule-named-ERROR"
+				break
+			}
 			cs.G = specgen.NotLALRGrammar(r)
 			cs.Origin = "lr1-not-lalr1"
 		default:
@@ -61,7 +66,7 @@ func drawC04(r *rng.R, stats map[string]int, mu *sync.Mutex) *c04Case {
 				cs.Origin += "/" + tw
 			}
 		}
-		if r.Chance(1, 3) {
+		if r.Chance(1, 3) && cs.Origin != "rule-named-ERROR" {
 			specgen.RenameSymbols(r, cs.G)
 		}
 		if r.Chance(1, 2) {
@@ -69,7 +74,7 @@ func drawC04(r *rng.R, stats map[string]int, mu *sync.Mutex) *c04Case {
 			// indices, item order inside states)
 			cs.G.PermuteRules(r.Perm(len(cs.G.Rules)))
 		}
-		if r.Chance(1, 8) && !strings.HasPrefix(cs.Origin, "expr") {
+		if r.Chance(1, 8) && !strings.HasPrefix(cs.Origin, "expr") && cs.Origin != "rule-named-ERROR" {
 			specgen.AddErrors(r, cs.G)
 			cs.Origin += "+error"
 		}
